@@ -21,12 +21,12 @@ from vf import core
 from vf.ref import excel as ref
 
 ID = 'C15'
-N = {'quick': 15000, 'thorough': 150000}
+N = {'quick': 12500, 'thorough': 125000}
 NT_RULE = ('workbook = sheet name + decoy sheets + comment row or not + header strings + cell matrix, '
            'drawn per case index from a seeded PRNG after a list of directed workbooks; non-trivial = '
            '>=2 data rows, >=1 special column family with a filled cell and >=1 empty cell; distinct = '
            'distinct canonical JSON of the workbook')
-REQUIRED_ORACLES = ['X1', 'X2', 'X3', 'X4']
+REQUIRED_ORACLES = ['X1', 'X2', 'X3', 'X4', 'P0']
 
 FAMILIES = ['ordinary', 'element', 'formula', 'statmech_model', 'trans_model', 'vib_model', 'rot_model',
             'elec_model', 'nucl_model', 'vib_wavenumber', 'rot_temperature', 'nasa', 'list', 'dict']
@@ -47,7 +47,12 @@ REQUIRED_CLASSES = (['fam:' + f for f in FAMILIES]
                     + ['name:random_case:' + h for h in ref.MODE_CLASSES]
                     + ['preset:%s:zero_n_degrees' % p for p in PRESET_NAMES if p != 'idealgas']
                     + ['num:%s:%s' % (k, f) for k in ('near_integer', 'big_fraction')
-                       for f in ('ordinary', 'vib_wavenumber', 'list', 'dict', 'nasa')])
+                       for f in ('ordinary', 'vib_wavenumber', 'list', 'dict', 'nasa')]
+                    # "programs": what ran in the process before the sheet was read
+                    + ['prog:none', 'prog:lsr_float', 'prog:extlsr_float', 'prog:lsr_species', 'prog:lsr_dict',
+                       'prog:read_other', 'prog:edit_reread', 'prog:edit_reread:nested']
+                    + ['prog:statmech_preset:' + p for p in PRESET_NAMES]
+                    + ['prog:preset_used_before_row:' + p for p in PRESET_NAMES])
 REQUIRED_PROBES = ['read_excel', 'set_element', 'set_formula', 'set_statmech_model', 'set_trans_model',
                    'set_vib_model', 'set_rot_model', 'set_elec_model', 'set_nucl_model',
                    'set_vib_wavenumbers', 'set_rot_temperatures', 'set_nasa_a_low', 'set_nasa_a_high',
@@ -75,6 +80,15 @@ ASSUMPTIONS = [
     'an explicit column wins over the same key of a preset wherever it stands',
     'read_excel is called with sheet_name=<name> and the default skiprows (comment row present) or '
     'skiprows=None (absent); no other option is exercised',
+    'the per-mode model catalogue is fixed in vf/ref/excel.py (never derived from the live module namespaces): the '
+    'classes of the mode\'s module, LSR / ExtendedLSR / ConstantMode for elec_model (ConstantMode is the elec_model '
+    'of the library\'s own "constant" preset), EmptyMode everywhere',
+    '"programs": before the sheet is read a case may run other public pMuTT operations (LSR / ExtendedLSR from '
+    'numbers and from species, LSR to_dict/from_dict, StatMech(**presets[p]), reading another sheet) and may edit '
+    'the records of a first read (incl. nested lists / dicts / arrays) and read again; failures of those '
+    'operations themselves are telemetry (not C15); P0: pmutt.statmech.presets equals the documented table and '
+    'its snapshot taken before the first case, at the end of every case (restored after a violation so that a '
+    'case depends on its own spec only)',
 ]
 
 NUM_TOL = 2e-15          # only for string cells that spell a number (parsed by pandas); number cells: exact
@@ -530,7 +544,36 @@ def generate(rng, tier):
     if len(rows) >= 3 and rng.random() < 0.2:
         for j in rng.sample(range(1, len(rows) - 1), min(2, len(rows) - 2)):
             rows[j] = [None] * len(headers)
-    return _spec(rng, headers, rows)
+    spec = _spec(rng, headers, rows)
+    spec['program'] = _program(rng, 'statmech_model' in fams)
+    return spec
+
+
+def _e(rng):
+    return round(rng.uniform(-60.0, 60.0), 3)
+
+
+def _program(rng, has_preset):
+    """operations run in the same process before the sheet is read ("programs" of the quantifier)"""
+    if rng.random() < (0.3 if has_preset else 0.5):
+        return []
+    ops = []
+    for _ in range(rng.choice([1, 1, 2, 3])):
+        kind = rng.choice(['lsr_float', 'extlsr_float', 'lsr_species', 'lsr_dict', 'statmech_preset',
+                           'statmech_preset', 'read_other', 'edit_reread'])
+        if kind in ('lsr_float', 'lsr_dict'):
+            ops.append([kind, round(rng.uniform(0, 1), 3), _e(rng), _e(rng), _e(rng), _e(rng)])
+        elif kind == 'extlsr_float':
+            n = rng.randint(1, 3)
+            ops.append([kind, [round(rng.uniform(0, 1), 3) for _ in range(n)], _e(rng),
+                        [_e(rng) for _ in range(n)], [_e(rng) for _ in range(n)], [_e(rng) for _ in range(n)]])
+        elif kind == 'lsr_species':
+            ops.append([kind, round(rng.uniform(0, 1), 3), _e(rng), _e(rng), _e(rng), _e(rng)])
+        elif kind == 'statmech_preset':
+            ops.append([kind, rng.choice(PRESET_NAMES)])
+        elif not any(o[0] == kind for o in ops):
+            ops.append([kind])
+    return ops
 
 
 # ---------------------------------------------------------------- directed cases
@@ -629,6 +672,25 @@ def directed(tier):
         rows.append([b, a, None, None, a, a, b, a, None])
     D.append({'sheet': 'near integers', 'decoys_before': 0, 'decoys_after': 0, 'comment': ['x'] * 9,
               'headers': hdr, 'rows': rows})
+    # 12/13: program context - every preset is used by other public operations before rows naming it are read;
+    # rows with and without cells for keys such an operation could leak (notes, U, H ...); records of a first
+    # read are edited (nested values too) and the sheet is read again
+    hdr = ['name', 'statmech_model', 'notes', 'U', 'dict.opts.a', 'list.tags', 'list.tags', 'nasa.a_low.0']
+    rows = []
+    for p in PRESET_NAMES:
+        rows.append([p, p, None, None, None, None, None, None])
+        rows.append([p + '+', _CAMEL[p], 'own note', 1.5, 2, 'x', 'y', 0.5])
+    rows.append(['none', None, None, None, 3, None, 'z', None])
+    prog = [['lsr_float', 0.5, 1.2, -20.0, -5.0, 2.0], ['extlsr_float', [0.5, 0.2], 1.0, [-20.0, 3.0], [-5.0, 1.0],
+            [2.0, 0.5]], ['lsr_species', 1.0, 0.0, 1.0, 2.0, 3.0], ['lsr_dict', 0.3, 0.1, -2.0, 0.0, 0.0]]
+    prog += [['statmech_preset', p] for p in PRESET_NAMES]
+    D.append({'sheet': 'after a program', 'decoys_before': 1, 'decoys_after': 0, 'comment': None,
+              'headers': hdr, 'rows': rows, 'program': prog + [['read_other'], ['edit_reread']]})
+    D.append({'sheet': 'program, no edit', 'decoys_before': 0, 'decoys_after': 1, 'comment': ['c'] * 8,
+              'headers': ['name', 'statmech_model', 'elec_model'],
+              'rows': [['a', 'constant', None], ['b', None, 'ConstantMode'], ['c', 'Constant', ' ConstantMode '],
+                       ['d', 'placeholder', 'ConstantMode'], ['e', None, None]],
+              'program': [['lsr_float', 1.0, 0.0, 4167824531.75, 0.0, 1500.0000000004], ['read_other']]})
     return D
 
 
@@ -639,10 +701,11 @@ def _write(spec, path):
 
     def decoy(title):
         ws = wb.create_sheet(title=title)
-        ws.append(['name', 'vib_wavenumber', 'list.decoy', 'DECOY'])
+        ws.append(['name', 'vib_wavenumber', 'list.decoy', 'DECOY', 'statmech_model', 'notes', 'dict.decoyd.k',
+                   'nasa.a_low.0'])
         ws.append(['decoy comment'])
-        ws.append(['DECOY', 1.0, 'x', 1])
-        ws.append(['DECOY2', 2.0, 'y', 2])
+        ws.append(['DECOY', 1.0, 'x', 1, 'constant', 'decoy note', 7, 0.25])
+        ws.append(['DECOY2', 2.0, 'y', 2, 'IdealGas', None, None, None])
     names = set([spec['sheet'].lower()])
     k = 0
     for _ in range(spec['decoys_before']):
@@ -722,6 +785,7 @@ def _inv(label, ret, snap):
 
 def install_probes(pr, ctx):
     _P['ctx'] = ctx
+    _snapshot_presets()
 
     def mod():
         import pmutt.io.excel as m
@@ -1054,6 +1118,24 @@ def _classes(ctx, spec, refs):
     if any(all(v is None for v in r) for r in spec['rows'][1:-1]):
         ctx.cls('row:empty_interior')
     ctx.nontrivial(n >= 2 and filled_special and any_empty)
+    prog = spec.get('program') or []
+    if not prog:
+        ctx.cls('prog:none')
+    used = set()
+    for op in prog:
+        if op[0] in ('lsr_float', 'extlsr_float', 'lsr_species', 'lsr_dict'):
+            used.add('constant')
+        elif op[0] == 'statmech_preset':
+            used.add(op[1])
+        elif op[0] == 'read_other' and (spec['decoys_before'] or spec['decoys_after']):
+            used.update(['constant', 'idealgas'])
+    in_rows = set()
+    for r in rows:
+        for j, v in enumerate(r):
+            if v is not None and fams[j][0] == 'statmech_model':
+                in_rows.add(v.strip().lower())
+    for p in sorted(used & in_rows):
+        ctx.cls('prog:preset_used_before_row:' + p)
     exp = ctx.extra.setdefault('expected_cells_by_family', {})
     for f, c in cellcount.items():
         exp[f] = exp.get(f, 0) + c
@@ -1100,10 +1182,192 @@ def _drop_family(spec, fam):
     return out
 
 
+# ---------------------------------------------------------------- program context and the presets invariant
+_SNAP = {'presets': None}
+_PRESET_KW = {
+    'idealgas': dict(molecular_weight=18.0, vib_wavenumbers=[3825.4, 1654.4, 3936.6], potentialenergy=-14.2,
+                     spin=0, geometry='nonlinear', rot_temperatures=[40.0, 21.0, 13.0], symmetrynumber=2),
+    'harmonic': dict(vib_wavenumbers=[500.0, 600.0], potentialenergy=-1.0, spin=0),
+    'electronic': dict(potentialenergy=-1.0, spin=0.5),
+    'placeholder': {},
+    'constant': dict(U=1.0, H=1.0, G=1.0, S=0.1),
+}
+
+
+def _snapshot_presets():
+    """copy of pmutt.statmech.presets taken before the first case of the process"""
+    if _SNAP['presets'] is None:
+        from pmutt.statmech import presets
+        _SNAP['presets'] = {k: dict(v) for k, v in presets.items()}
+    return _SNAP['presets']
+
+
+def _check_presets(ctx, after):
+    """P0: the shared presets table is what it was at import and what the documentation says"""
+    from pmutt.statmech import presets
+    snap = _snapshot_presets()
+    mech0 = {'column': 'statmech_model', 'rule': 'P0'}
+    ok = True
+    if set(presets) != set(snap):
+        ctx.fail('P0', dict(mech0, what='preset_names'), got=sorted(presets), want=sorted(snap), after=after)
+        ok = False
+    for p, want in snap.items():
+        got = presets.get(p)
+        if not isinstance(got, dict):
+            continue
+        for k in sorted(set(got) | set(want), key=str):
+            if k not in want:
+                ctx.fail('P0', dict(mech0, preset=p, what='key_added'), key=k, value=got[k], after=after)
+            elif k not in got:
+                ctx.fail('P0', dict(mech0, preset=p, what='key_removed'), key=k, after=after)
+            elif not (got[k] is want[k] or (type(got[k]) is type(want[k]) and not isinstance(want[k], type)
+                                            and got[k] == want[k])):
+                ctx.fail('P0', dict(mech0, preset=p, what='value_changed'), key=k, got=got[k], want=want[k],
+                         after=after)
+            else:
+                continue
+            ok = False
+    # the snapshot itself against the documented table (hard-coded reference)
+    for p, doc in ref.PRESETS.items():
+        have = snap.get(p, {})
+        keys = set(have) - set(ref.PRESET_META_KEYS)
+        same = keys == set(doc) and all(
+            (have[k] is _resolve(v)) if isinstance(v, tuple) else (have[k] == v and type(have[k]) is type(v))
+            for k, v in doc.items() if k in have)
+        if not same:
+            ctx.fail('P0', dict(mech0, preset=p, what='differs_from_documented_table'),
+                     got=sorted(map(str, keys)), want=sorted(doc))
+            ok = False
+    if ok:
+        ctx.held('P0')
+    else:
+        # restore, so that the verdict of the next case depends on its own spec only
+        for p in list(presets):
+            if p not in snap:
+                del presets[p]
+        for p, want in snap.items():
+            if isinstance(presets.get(p), dict):
+                presets[p].clear()
+                presets[p].update(want)
+            else:
+                presets[p] = dict(want)
+    return ok
+
+
+def _run_program(ctx, spec, path):
+    """other public pMuTT operations executed before the sheet is read.  Their own failures are not C15's
+    business (telemetry); what they may do to the reader's shared state is."""
+    from pmutt.io.excel import read_excel
+    flags = set()
+    for op in spec.get('program') or []:
+        kind = op[0]
+        try:
+            if kind in ('lsr_float', 'lsr_dict'):
+                from pmutt.statmech import lsr
+                obj = lsr.LSR(slope=op[1], intercept=op[2], reaction=op[3], surf_species=op[4], gas_species=op[5])
+                obj.get_UoRT(T=300.0)
+                if kind == 'lsr_dict':
+                    import copy
+                    lsr.LSR.from_dict(copy.deepcopy(obj.to_dict())).get_UoRT(T=300.0)
+            elif kind == 'extlsr_float':
+                from pmutt.statmech import lsr
+                obj = lsr.ExtendedLSR(slopes=op[1], intercept=op[2], reactions=op[3], surf_species=op[4],
+                                      gas_species=op[5])
+                obj.get_UoRT(T=300.0)
+            elif kind == 'lsr_species':
+                from pmutt.statmech import lsr, presets, StatMech
+                from pmutt.reaction import Reaction
+                sp = [StatMech(U=v, H=v, F=v, G=v, **presets['constant']) for v in op[3:6]]
+                rx = Reaction(reactants=[StatMech()], reactants_stoich=[1.0], products=[sp[0]],
+                              products_stoich=[1.0])
+                lsr.LSR(slope=op[1], intercept=op[2], reaction=rx, surf_species=sp[1],
+                        gas_species=sp[2]).get_UoRT(T=300.0)
+            elif kind == 'statmech_preset':
+                from pmutt.statmech import presets, StatMech
+                kw = {k: (list(v) if isinstance(v, list) else v) for k, v in _PRESET_KW[op[1]].items()}
+                StatMech(**kw, **presets[op[1]]).get_GoRT(T=300.0, raise_error=False, raise_warning=False)
+            elif kind == 'read_other':
+                if spec['decoys_before'] or spec['decoys_after']:
+                    other = read_excel(path, sheet_name='decoy1' if spec['sheet'].lower() != 'decoy1' else 'decoy2')
+                else:
+                    kw = {'sheet_name': spec['sheet']}
+                    if spec['comment'] is None:
+                        kw['skiprows'] = None
+                    other = read_excel(path, **kw)
+                _scramble(other)
+            elif kind == 'edit_reread':
+                flags.add('edit_reread')
+            else:
+                continue
+        except Exception as e:                                    # noqa: telemetry only
+            errs = ctx.extra.setdefault('program_op_errors', {})
+            key = '%s:%s' % (kind, type(e).__name__)
+            errs[key] = errs.get(key, 0) + 1
+        ctx.cls('prog:' + kind + (':' + op[1] if kind == 'statmech_preset' else ''))
+    return flags
+
+
+def _scramble(records):
+    """edit records a read returned, nested values too; a later read must not see any of it.
+    -> True when a nested (list / dict / array) value was edited"""
+    import numpy as np
+    nested = False
+    for rec in records if isinstance(records, list) else []:
+        if not isinstance(rec, dict):
+            continue
+        for k in list(rec):
+            v = rec[k]
+            if isinstance(v, list):
+                v.append('LEAK')
+                v.reverse()
+                nested = True
+            elif isinstance(v, dict):
+                v.clear()
+                v['LEAK'] = -1
+                nested = True
+            elif isinstance(v, np.ndarray):
+                try:
+                    v.fill(-777.0)
+                    nested = True
+                except Exception:
+                    pass
+            else:
+                rec[k] = 'LEAK'
+        rec['LEAK'] = ['leak']
+        rec['notes'] = 'leaked note'
+    return nested
+
+
+class _Tagged:
+    """ctx proxy that adds discriminating features to every mech of a comparison"""
+
+    def __init__(self, ctx, **tag):
+        self._ctx, self._tag = ctx, tag
+
+    def fail(self, oracle, mech=None, **detail):
+        return self._ctx.fail(oracle, dict(mech or {}, **self._tag), **detail)
+
+    def check(self, oracle, cond, mech=None, **detail):
+        return self._ctx.check(oracle, cond, dict(mech or {}, **self._tag), **detail)
+
+    def __getattr__(self, name):
+        return getattr(self._ctx, name)
+
+
 def run_case(spec, ctx):
+    try:
+        _run_case(spec, ctx)
+    finally:
+        _check_presets(ctx, 'case')
+
+
+def _run_case(spec, ctx):
     from pmutt.io.excel import read_excel
     refs = ref.read(spec['headers'], spec['rows'])
     _classes(ctx, spec, refs)
+    _snapshot_presets()
+    flags = None
+    cmp_ctx = ctx
     cur = spec
     for attempt in range(4):
         path = os.path.join(ctx.tmpdir, 'case_%s_%d.xlsx' % (ctx.case_index, attempt))
@@ -1111,8 +1375,20 @@ def run_case(spec, ctx):
         kwargs = {'sheet_name': cur['sheet']}
         if cur['comment'] is None:
             kwargs['skiprows'] = None
+        if flags is None:
+            flags = _run_program(ctx, spec, path)
         try:
             records = read_excel(path, **kwargs)
+            if 'edit_reread' in flags:
+                # first read is compared as usual, its records are then edited and the sheet is read again
+                if cur is not spec:
+                    refs = ref.read(cur['headers'], cur['rows'])
+                _compare(_Tagged(ctx, read='first_of_two'), cur, cur['headers'], cur['rows'], records, refs)
+                if _scramble(records):
+                    ctx.cls('prog:edit_reread:nested')
+                _check_presets(ctx, 'edit')
+                records = read_excel(path, **kwargs)
+                cmp_ctx = _Tagged(ctx, read='after_edit')
         except Exception as e:                                    # noqa: violation, no records reported
             fam = _exc_family(e, cur['headers'])
             rule = 'X2' if fam != 'sheet' else 'X1'
@@ -1128,7 +1404,7 @@ def run_case(spec, ctx):
         if records is not None:
             if cur is not spec:
                 refs = ref.read(cur['headers'], cur['rows'])
-            _compare(ctx, cur, cur['headers'], cur['rows'], records, refs)
+            _compare(cmp_ctx, cur, cur['headers'], cur['rows'], records, refs)
             return
         if nxt is None:
             return
